@@ -11,5 +11,6 @@ CONSTANTS
   Extra = {"zz"}
   FullOptParams = 0
   FullOptKw = 0
+  KindParams = 0
 INVARIANT BrokenNoDupCheck
 CHECK_DEADLOCK FALSE
